@@ -27,6 +27,7 @@ PROP = "C02"
 NWORK = 16
 CPU_LIMIT = 25.0          # CPU seconds one input may use (typical: < 1 ms; the largest bundled file: < 0.2 s)
 WALL_LIMIT = 1500.0       # wall-clock backstop without any progress of a worker (machine overload tolerant)
+OPS_WALL_LIMIT = 400      # wall-clock seconds for the cursor-program run (typical: 1-2 s)
 MAX_HANGS = 6            # watchdog kills / process deaths after which a stream is abandoned
 MEM_KB = 6000000          # address space of a worker (ulimit -v)
 TICK = os.sysconf("SC_CLK_TCK") if hasattr(os, "sysconf") else 100
@@ -576,11 +577,25 @@ def oracle_stage(res, hbin, mbin, cases_path, tag, stats, kf_entries, kf_hits, l
 def ops_stage(res, hbin, mbin, mode_args, tag, stats, ops_samples):
     d = rundir(PROP)
     cases, impl = os.path.join(d, tag + ".cases"), os.path.join(d, tag + ".impl")
+    for f in (impl,) + ((cases,) if mode_args[0] == "ops" else ()):
+        if os.path.exists(f):
+            os.remove(f)
+    # the ops run is a single watched process: wall-clock limit, the case in flight is the first one without result
+    limit = OPS_WALL_LIMIT * (4 if mode_args[0] == "ops" and mode_args[2] > 100000 else 1)
     if mode_args[0] == "ops":
-        rc, out = run([hbin, "ops", str(mode_args[1]), str(mode_args[2]), cases, impl], timeout=3000)
+        rc, out = run([hbin, "ops", str(mode_args[1]), str(mode_args[2]), cases, impl], timeout=limit)
     else:
         cases = mode_args[1]
-        rc, out = run([hbin, "opsfile", cases, impl], timeout=3000)
+        rc, out = run([hbin, "opsfile", cases, impl], timeout=limit)
+    if rc == 124:
+        cl = [l for l in open(cases).read().split("\n") if l] if os.path.exists(cases) else []
+        ni = len([l for l in open(impl).read().split("\n") if l]) if os.path.exists(impl) else 0
+        inflight = cl[ni] if ni < len(cl) else None
+        res.violation("a cursor program on the real TokenStream did not terminate within %d s (skip_until / or_recover_until "
+                      "loop without progress?)" % limit,
+                      {"kind": "ops", "case": inflight, "results_before": ni, "replay_cmd": "./check C02 --replay <this file>"},
+                      no_failing_input=inflight is None)
+        return
     if rc != 0:
         res.violation("harness c02 crashed in mode %s" % mode_args[0], {"kind": "harness", "log": out[-2000:]}, no_failing_input=True)
         return
